@@ -109,7 +109,11 @@ struct ListWorld : World {
         return v;
     }
     // index relative to the current length (sequential modes); a fixed small range when several threads run, where the length is not the caller's to read
-    static int index_of(int a, size_t n, bool mt) { if (mt) return (a % 7) - 3; return (int)(a % (int)(2 * n + 5)) - (int)(n + 2); }
+    static int index_of(int a, size_t n, bool mt) {
+        if (mt) return (a % 7) - 3;
+        if (a >= 60 && a < 64) { static const int far[4] = {2147483647, -2147483647 - 1, -2147483647, 2147483646}; return far[a - 60]; }   // the ends of int: always out of range
+        return (int)(a % (int)(2 * n + 5)) - (int)(n + 2);
+    }
 
 #if QSIM_STRUCT
     qlist_t *base() const { return kind == K_LIST ? l : kind == K_QUEUE ? qq->list : kind == K_STACK ? qs->list : qg->list; }
